@@ -982,6 +982,17 @@ def verify_method(job):
         fr = verify.verify_function(rec, '%s.%s' % (CLS, method), make_entry(method, variant), post, timeout_ms=timeout_ms,
                                     known=known_for(method), on_violation=describe_path, workers=1, path_timeout_ms=2000)
         paths = len(fr.paths)
+        # vacuity guard: the hypotheses (Inv(D0) axioms, dict model, contract case) of the success path must not be refutable
+        ok = None
+        for p in E.explore(make_entry(method, variant)):
+            if p.kind == 'return' and p.value.contract[0] == 'return' and p.value.impl[0] == 'return':
+                ok = discharge(p.run, z3.BoolVal(False), timeout_ms=1500)[0] != 'unsat'
+                if ok:
+                    break
+        if not ok:
+            rec.obligation('C07.ram.%s.vacuity' % method, '%s.%s' % (CLS, method), 'checker', report.ERROR, 0.0,
+                           detail='no path on which both the contract and the implementation return has consistent hypotheses'
+                           if ok is False else 'no path on which both the contract and the implementation return')
     except Exception as e:    # a crash of the checker is an error, never a verdict
         import traceback
         rec.obligation('C07.ram.%s.checker' % method, '%s.%s' % (CLS, method), 'checker', report.ERROR, 0.0,
@@ -1159,6 +1170,19 @@ def main(tier):
         chk.obligation('C07.ram.%s.lock.lexical' % m, '%s.%s' % (CLS, m), 'frame', report.VIOLATED if bad else report.PROVED, 0.0,
                        detail={'unlocked_accesses_at_lines': bad} if bad else None,
                        model='self._owners is accessed outside `with self._lock` at lines %s of %s' % (bad, mod.path) if bad else None)
+
+    # lemma C07.equiv (closed formula): two refinements of one deterministic contract agree on every history
+    t0 = time.time()
+    Hs, Os = z3.DeclareSort('History'), z3.DeclareSort('Observation')
+    spec, i1, i2 = z3.Function('contract', Hs, Os), z3.Function('backend1', Hs, Os), z3.Function('backend2', Hs, Os)
+    h = z3.Const('h', Hs)
+    sl = z3.Solver()
+    sl.set('timeout', 5000)
+    sl.add(z3.ForAll([h], i1(h) == spec(h)), z3.ForAll([h], i2(h) == spec(h)), z3.Not(z3.ForAll([h], i1(h) == i2(h))))
+    rl = sl.check()
+    chk.obligation('C07.equiv', '-', 'z3', report.PROVED if rl == z3.unsat else report.UNDECIDED, time.time() - t0,
+                   detail='two backends that refine the same deterministic contract produce the same observations on every history '
+                          '(the contract is deterministic except for the error class of a malformed name)')
 
     # ---- Part 2: bounded comparison RAM / SQL(:memory:) / SQL(file) against the contract
     if merged is not None:
